@@ -45,13 +45,13 @@ def _load():
 
 
 class St:
-    __slots__ = ('units', 'streams', 'snap', 'names', 'cap', 'last_changed', 'thermo')
+    __slots__ = ('units', 'streams', 'snap', 'names', 'cap', 'last_changed', 'thermo', 'seen_placeholders')
 
 
 class C18(System):
     nontrivial_per_config = False
 
-    def __init__(self, name, unit_names, n_streams, cap, depth_q, depth_t, snapshots=False, wirings=None, pipes=True,
+    def __init__(self, name, unit_names, n_streams, cap, depth_q, depth_t, snapshots=False, wirings=None, pipes=True, construct=False,
                  state_cap=2_500_000, tcap_q=None, tcap_t=None):
         self.name = name
         self.unit_names = unit_names
@@ -60,6 +60,7 @@ class C18(System):
         self._dq, self._dt = depth_q, depth_t
         self.snapshots = snapshots
         self.pipes = pipes
+        self.construct = construct
         self.wirings = wirings
         self.state_cap = state_cap
         self._tq, self._tt = tcap_q, tcap_t
@@ -81,6 +82,25 @@ class C18(System):
         cfgs.append(('chain',))       # s0 -> U0 -> s1 -> U1 -> s2 -> U2 ...
         cfgs.append(('fresh',))       # units built with ins=() and outs=() (fresh anonymous streams)
         cfgs.append(('shared',))      # same stream given to two units at construction (redock at construct time)
+        if self.construct:
+            # construct-time wiring: every unit built (in order) from explicit stream lists, including streams that are
+            # already docked at a unit built earlier (redock at construction) -- all combinations that fit the port counts
+            sizes = dict(F=(2, 1, True, True), VI=(2, 1, False, True), VO=(1, 2, True, False), G=(1, 1, True, True))
+            opts_in = [(), (0,), (1,), (0, 1), (1, 0), (None, 0)]
+            opts_out = [(), (1,), (2 % n,), (1, 2 % n), (0,), (None, 1)]
+            per_unit = []
+            for nm in U:
+                ni, no, fi, fo = sizes[nm]
+                ok = []
+                for i in opts_in:
+                    if fi and len(i) > ni: continue
+                    for o in opts_out:
+                        if fo and len(o) > no: continue
+                        if len(set(o)) < len(o) or len(set(i)) < len(i): continue
+                        ok.append((i, o))
+                per_unit.append(ok)
+            for combo in itertools.product(*per_unit):
+                cfgs.append(('wired', tuple(combo)))
         k = seed % len(cfgs)
         return cfgs[k:] + cfgs[:k]
 
@@ -119,7 +139,18 @@ class C18(System):
         st.units = units
         st.snap = None
         st.last_changed = True
+        st.seen_placeholders = []
+        self._track(st)
         return st
+
+    def _track(self, st):
+        """remember every placeholder / anonymous stream that ever sat in a port: a displaced one must not keep claiming the unit"""
+        known = st.seen_placeholders
+        for u in st.units:
+            for lst in (u._ins, u._outs):
+                for x in lst._streams:
+                    if not any(x is s for s in st.streams) and not any(x is k for k in known):
+                        known.append(x)
 
     # ---- reading the connection state -------------------------------------------------
     def _tok(self, st, x, pmap):
@@ -150,7 +181,10 @@ class C18(System):
         if st.snap is not None:
             c = st.snap
             snap = (self._u(st, c.source), c.source_index, self._tok(st, c.stream, pmap), c.sink_index, self._u(st, c.sink))
-        return (units, streams, snap)
+        displaced = tuple(sorted((self._tok(st, x, pmap)[0], repr(self._u(st, x._source)), repr(self._u(st, x._sink)))
+                                 for x in st.seen_placeholders if id(x) not in pmap))
+        displaced = tuple(d for d in displaced if d[1] != 'None' or d[2] != 'None')
+        return (units, streams, snap, displaced)
 
     # ---- state oracle -----------------------------------------------------------------------
     def invariants(self, st):
@@ -188,8 +222,9 @@ class C18(System):
                     else:
                         seen_ports[key] = (st.names[ui], side, pi)
                     if x not in all_streams and isinstance(x, tmo.AbstractStream): all_streams.append(x)
-        # docked => listed   (for every real stream we know about, and the streams found in ports)
-        for x in all_streams:
+        # docked => listed   (for every real stream we know about, the streams found in ports, and every placeholder
+        # that ever sat in a port: once displaced it must not keep naming the unit)
+        for x in all_streams + [k for k in st.seen_placeholders if not any(k is y for y in all_streams)]:
             for attr, side in (('_sink', 'ins'), ('_source', 'outs')):
                 u = getattr(x, attr)
                 if u is None: continue
@@ -413,9 +448,11 @@ class C18(System):
                 else:
                     raise ValueError(a)
         except Exception as e:
+            self._track(st)
             st.last_changed = self.canon(st) != before
             # the state oracle is evaluated by the engine on the state the failed operation left behind
             raise Rejected(f'{op}:{type(e).__name__}', cut=False)
+        self._track(st)
         after = self.canon(st)
         st.last_changed = after != before
         return ('ok', st.last_changed)
@@ -436,6 +473,10 @@ SYSTEMS = [
     C18('c18.pair.F-VI', ('F', 'VI'), 3, 3, 3, None, pipes=False, state_cap=1_500_000, tcap_t=200),
     C18('c18.pair.F-VO', ('F', 'VO'), 3, 3, 3, None, pipes=False, state_cap=1_500_000, tcap_t=200),
     C18('c18.pair.VI-VO', ('VI', 'VO'), 3, 3, 3, None, pipes=False, state_cap=1_500_000, tcap_t=200),
+    # construct-time wirings (incl. streams already docked at a unit built earlier) x every operation once
+    C18('c18.construct.F-VI', ('F', 'VI'), 3, 3, 1, 2, construct=True),
+    C18('c18.construct.VO-VI', ('VO', 'VI'), 3, 3, 1, 2, construct=True),
+    C18('c18.construct.VI-VO-F', ('VI', 'VO', 'F'), 3, 3, 0, 1, construct=True),
     # the universe of the property: three units, five streams, depth-bounded, all operations incl. pipe notation
     # and Connection.reconnect of an earlier snapshot
     C18('c18.depth.F-VI-VO', ('F', 'VI', 'VO'), 5, 4, 2, 3, snapshots=True),
